@@ -208,3 +208,34 @@ def literal_strings(node):
                 return None
         return r
     return None
+
+
+def assignments_to(fn, name):
+    """All `name = value` (single target) assignments in `fn`, by line."""
+    out = [x for x in walk_no_defs(fn) if isinstance(x, ast.Assign)
+           and len(x.targets) == 1 and is_name(x.targets[0], name)]
+    return sorted(out, key=lambda x: x.lineno)
+
+
+def names_defined_by(fn, pred):
+    """Names whose (single-target) assignment value satisfies `pred`."""
+    out = []
+    for x in sorted((y for y in walk_no_defs(fn)
+                     if isinstance(y, ast.Assign)),
+                    key=lambda y: y.lineno):
+        if len(x.targets) == 1 and isinstance(
+                x.targets[0], ast.Name) and pred(x.value):
+            out.append(x.targets[0].id)
+    return out
+
+
+def alias_of(fn, name, depth=0):
+    """Follow `a = b` aliases of plain names to the original name."""
+    while depth < 5:
+        defs = assignments_to(fn, name)
+        if len(defs) == 1 and isinstance(defs[0].value, ast.Name):
+            name = defs[0].value.id
+            depth += 1
+        else:
+            break
+    return name
